@@ -2,6 +2,8 @@ package props
 
 import (
 	"fmt"
+	"os"
+	"path/filepath"
 	"strings"
 
 	"github.com/vicanso/pike/cache"
@@ -339,6 +341,93 @@ func init() {
 				}
 			}
 			st.States, st.Transitions, st.Nontrivial = st.Execs*6, st.Execs*6, st.Execs
+			st.NOutcomes = int(st.Execs)
+		}
+		// URIs that contain another key's URI (after "://", after "?u=", dot segments, parameters): raw request-URIs are the key
+		if c.Want("embedded-uris") {
+			st := c.Stat("embedded-uris", "enumeration")
+			uris := []string{"/x", "/xy", "/l?next=http://a.com/x", "/l?next=http://a.com/xy", "/l?next=https://b.com/x", "/x?u=/xy", "/x;p=1", "/./x", "/a/../x", "/x/.."}
+			st.Bounds = fmt.Sprintf("every ordered pair of %d request-URIs one of which embeds the other, sequence A B A B A, limits 1 and 2", len(uris))
+			e := getEnv(cfg, "basic")
+			var idx int64
+			for _, limit := range []int{1, 2} {
+				for i, a := range uris {
+					for j, b := range uris {
+						if i == j {
+							continue
+						}
+						idx++
+						if !c.Mine(idx) {
+							continue
+						}
+						freshCaches(cfg)
+						oneShard("c1", limit, nil)
+						e.Respond = func(oc *env.OriginCall) env.OriginResp { return env.Cacheable(oc, 100, "p") }
+						e.Events()
+						for n, u := range []string{a, b, a, b, a} {
+							e.Do(env.Req{URI: u, Rid: fmt.Sprintf("r%d", n)})
+						}
+						an := analyze(e.Events())
+						st.Execs++
+						st.States += 5
+						st.Transitions += 5
+						st.Nontrivial++
+						v := an.selfCheck()
+						if v == nil {
+							v = an.labelTruth()
+						}
+						if v != nil {
+							c.Violation("embedded-uris", v.Sig, fmt.Sprintf("URIs %q and %q: %s", a, b, v.Msg), nil, map[string]interface{}{"a": a, "b": b, "limit": limit}, nil)
+						}
+					}
+				}
+			}
+			st.NOutcomes = int(st.Execs)
+		}
+		// very long keys on a real badger store (badger refuses keys above 65000 bytes): keys that share a long prefix
+		if c.Want("long-keys-badger") && c.Shard == 0 {
+			st := c.Stat("long-keys-badger", "enumeration")
+			lens := []int{200, 990, 1100, 4000, 64900, 64990, 65100, 70000}
+			st.Bounds = fmt.Sprintf("pairs of URIs sharing a prefix of %v bytes and differing in the last byte, on a real badger store: A, restart, B, A, restart, A, B", lens)
+			dir := filepath.Join(os.Getenv("PIKEMC_WORK"), fmt.Sprintf("c06-badger-%d", os.Getpid()))
+			if os.Getenv("PIKEMC_WORK") == "" {
+				dir = filepath.Join("/verif/.work", fmt.Sprintf("c06-badger-%d", os.Getpid()))
+			}
+			os.RemoveAll(dir)
+			bcfg := env.BasicConfig(config.CacheConfig{Store: "badger://" + dir})
+			e := getEnv(bcfg, "c06-badger")
+			for _, n := range lens {
+				prefix := "/" + strings.Repeat("k", n-1)
+				a, b := prefix+"a", prefix+"b"
+				freshCaches(bcfg)
+				e.Respond = func(oc *env.OriginCall) env.OriginResp { return env.Cacheable(oc, 100, "p") }
+				e.Events()
+				rid := 0
+				for _, u := range []string{a, "restart", b, a, "restart", a, b} {
+					if u == "restart" {
+						freshCaches(bcfg)
+						continue
+					}
+					e.Do(env.Req{URI: u, Rid: fmt.Sprintf("r%d", rid)})
+					rid++
+				}
+				an := analyze(e.Events())
+				st.Execs++
+				st.States += 5
+				st.Transitions += 7
+				st.Nontrivial++
+				v := an.selfCheck()
+				if v == nil {
+					v = an.labelTruth()
+				}
+				if v != nil {
+					c.Violation("long-keys-badger", v.Sig, fmt.Sprintf("two URIs of %d bytes differing in the last byte: %s", n+1, trunc([]byte(v.Msg))), nil, map[string]interface{}{"prefix_bytes": n}, nil)
+				}
+			}
+			if d := cache.GetDispatcher("c1"); d != nil && d.VerifStore() != nil {
+				_ = d.VerifStore().Close()
+			}
+			os.RemoveAll(dir)
 			st.NOutcomes = int(st.Execs)
 		}
 		pre := 2
